@@ -9,6 +9,10 @@ const { Rng, hashStr, clip } = require('../lib/util')
 const CFG = cfg({ methods: STRING_METHODS, verbosity: 'OFF' })
 const CFG_CHAIN = cfg({ methods: STRING_METHODS, verbosity: 'OFF', chain: true })
 
+// directories of the rewritten files: plain, nested, non-ASCII, blanks and brackets, characters that are special in
+// String.prototype.replace replacement patterns or in regular expressions
+const DIRS = ['app', 'lib/deep', 'ñ', 'app', 'with space (1)', 'a$&b', "q$'q$$", 'r[e]g.ex+', 'node_modules/@scope/pkg/dist']
+
 // ---- generated module with throw sites on known lines -----------------------------------------------------
 function genModule (rng, opts = {}) {
   const L = []
@@ -24,6 +28,14 @@ function genModule (rng, opts = {}) {
     sites.throw = { lo: add(`  throw new Error('site-throw-${id} ' + x${id})`), fn: 'siteThrow', args: ['"a"', '" b "'], ctor: 'Error' }
     sites.throw.hi = sites.throw.lo
     add('}')
+    if (opts.multilineMessage) {
+      // an error whose message has lines of its own, one of which reads like a stack frame
+      add('function siteMultiline(a) {')
+      add("  const m = a + 'first line'")
+      sites.multiline = { lo: add(`  throw new Error(m + '\\n    at not a frame (of-${id}:1:1)\\nthird ' + a)`), fn: 'siteMultiline', args: ['"m"'], ctor: 'Error' }
+      sites.multiline.hi = sites.multiline.lo
+      add('}')
+    }
     add('function siteNull(a, n) {')
     add("  const y = a + 'pad'")
     const lo = add('  return y +')
@@ -57,7 +69,7 @@ function genModule (rng, opts = {}) {
     sites.colzero = { lo: c0lo, hi: c0hi, fn: 'siteColumnZero', args: ['"z"'], ctor: 'TypeError', returned: true }
     add('  return e')
     add('}')
-    add('Object.assign(exports, { siteThrow, siteNull, siteHook, siteEval, siteNested, siteColumnZero })')
+    add(`Object.assign(exports, { siteThrow, siteNull, siteHook, siteEval, siteNested, siteColumnZero${opts.multilineMessage ? ', siteMultiline' : ''} })`)
   } else {
     // nothing to instrument: the rewriter reports notmodified and the package must not translate anything
     add('function siteThrow(a, b) {')
@@ -207,7 +219,7 @@ function findMarker (content, marker) {
 module.exports = {
   id: 'C11',
   level: 'exploration',
-  rule: 'the repository\'s real main.js / js/source-map / js/stack-trace are loaded with the native module replaced by a shim that calls rwharness; generated CommonJS modules with throw sites on known lines (throw statement, TypeError from a null receiver inside an injected sequence on a two-line statement, a hook that throws on a marker, an error inside an eval-created frame, a nested closure, top-level code) are rewritten through the caching Rewriter, compiled under the original file name with Module.prototype._compile and run; each error\'s stack is read through both code paths of getPrepareStackTrace (wrapping a user handler; formatting V8\'s string) and the frame of the rewritten file must carry the original path and a line inside the statement\'s span (with a chained inline map: orig.ts and line+100); frames of other files unchanged; nothing throws. On-disk lookups: getOriginalPathAndLineFromSourceMap over temporary files with inline / external / missing / invalid / absent maps, compared with an independent decoder where the lookup conventions agree (a token on the same line at or before the column). Histories: random sequences of rewrites (modified v1/v2, not modified, syntax error) over 5 file names, after each of which a lookup for every file must use the map of its most recent rewrite (positions unchanged when that rewrite was not modified). distinct_nontrivial = distinct (module, site, path) stacks plus history lookups decided.',
+  rule: 'the repository\'s real main.js / js/source-map / js/stack-trace are loaded with the native module replaced by a shim that calls rwharness; generated CommonJS modules with throw sites on known lines (throw statement, TypeError from a null receiver inside an injected sequence on a two-line statement, a hook that throws on a marker, an error inside an eval-created frame, a nested closure, top-level code, an error whose multi-line message contains a line that reads like a frame), placed under plain, nested, non-ASCII and hostile directory names (blanks and brackets, `$&` / `$\' ` / `$$`, regex metacharacters, node_modules/@scope) with various extensions, are rewritten through the caching Rewriter, compiled under the original file name with Module.prototype._compile and run; each error\'s stack is read through both code paths of getPrepareStackTrace (wrapping a user handler; formatting V8\'s string) and the frame of the rewritten file must carry the original path and a line inside the statement\'s span (with a chained inline map: orig.ts and line+100); frames of other files unchanged; nothing throws. On-disk lookups: getOriginalPathAndLineFromSourceMap over temporary files with inline / external / missing / invalid / absent maps, compared with an independent decoder where the lookup conventions agree (a token on the same line at or before the column). Histories: random sequences of rewrites (modified v1/v2, not modified, syntax error) over 5 file names, after each of which a lookup for every file must use the map of its most recent rewrite (positions unchanged when that rewrite was not modified). distinct_nontrivial = distinct (module, site, path) stacks plus history lookups decided.',
   assumptions: ['eval frames are only checked through the string-formatting path (the wrapping path has no file name for them)', 'after a failed (syntax error) rewrite nothing is asserted about the file until it is rewritten again', 'lru-cache is a 12-line stand-in with get/set'],
   plan (ctx) {
     const shards = []
@@ -228,8 +240,8 @@ module.exports = {
       const sharedPkg = P.loadPackage() // module-level caches and state persist across files, as in a real process
       for (let i = 0; i < spec.count; i++) {
         const chain = i % 3 === 2
-        const mod = genModule(rng.fork(i), { chain })
-        const file = `/srv/c11/${rng.pick(['app', 'lib/deep', 'ñ'])}/mod_${spec.stream}_${i}.js`
+        const mod = genModule(rng.fork(i), { chain, multilineMessage: i % 4 === 1 })
+        const file = `/srv/c11/${rng.pick(DIRS)}/mod_${spec.stream}_${i}${rng.pick(['.js', '.js', '.cjs', '', '.min.js'])}`
         const pkg = sharedPkg
         const rw = new pkg.Rewriter(chain ? CFG_CHAIN : CFG)
         let resp
